@@ -288,6 +288,14 @@ class C05(E1Check):
                 p = build_program(shape, "both", (d,), "plain", "before", "res")
                 if p is not None:
                     progs.append(dict(p, audit=True))
+        # second use: the same tree is started in two successive sub-contexts of one long-lived context; what the components
+        # published (resources and factories) lives and dies with the context start_component() ran in
+        for shape in ("r(a,b)", "r(a(g),b)"):
+            for d in candidate_deps(shape)[::2]:
+                for pub in ("res", "sync", "async"):
+                    p = build_program(shape, "both", (d,), "plain", "before", pub)
+                    if p is not None:
+                        progs.append(dict(p, twice=True))
         return progs
 
     def bound(self, tier: str, program: Any) -> int:
@@ -314,6 +322,30 @@ class C05(E1Check):
 
         import anyio
 
+        if program.get("twice"):
+            rounds: list = []
+            async with Context() as outer:
+                for rnd in (1, 2):
+                    try:
+                        async with Context() as sub:
+                            with warnings.catch_warnings():
+                                warnings.simplefilter("ignore")
+                                await start_component(tree.root_class, {}, timeout=None)
+                            vis = {n: lab(v) for n, v in sub.get_resources(RA).items()}
+                            vis_b = {n: lab(v) for n, v in sub.get_resources(RB).items()}
+                        rounds.append((sorted(vis), sorted(vis_b)))
+                    except BaseException as e:  # noqa: BLE001
+                        env.fail("start-failed", f"round {rnd}: starting the tree in a fresh sub-context failed: {type(e).__name__}: {str(e)[:160]}; caused by {e.__cause__!r}")
+                        break
+                    for typ, names in ((RA, vis), (RB, vis_b)):
+                        for n in names:
+                            if outer.get_resource_nowait(typ, n, optional=True) is not None or await outer.get_resource(typ, n, optional=True) is not None:
+                                env.fail("ownership", f"round {rnd}: {typ.__name__}/{n} published by a component in the sub-context is still available in the outer context after the sub-context was left")
+                if len(rounds) == 2 and rounds[0] != rounds[1]:
+                    env.fail("ownership", f"the second start of the same tree made {rounds[1]} visible, the first {rounds[0]}")
+                if rounds and not (rounds[0][0] or rounds[0][1]):
+                    env.fail("harness", "the tree published nothing")
+            return
         leave_scope = anyio.CancelScope()
         with leave_scope:
           async with Context() as ctx, AsyncExitStack() as audit:
